@@ -143,10 +143,10 @@ def validate(trace_path, max_rounds=10):
 
 def design(tier="quick"):
     """Exhaustive TLC check of the protocol design itself: today's decision rule keeps Atomic/CleanFailure/Publishes/Terminates under
-    every combination of up to MaxFaults failing calls and a panic; the two historic decision rules must violate them (the
+    every combination of up to MaxFaults failing calls (thorough: of any number of failing calls) and a panic; the two historic decision rules must violate them (the
     invariants are not vacuous)."""
     out = {}
-    mf = "3" if tier == "quick" else "5"
+    mf = "3" if tier == "quick" else "14"   # 14 exceeds the number of calls of any run: every set of failing calls
     for v in VARIANTS:
         for dec, want_ok in (("okflag", True), ("errkeyed", False), ("nodefer", False)):
             r = vlib.run_tlc("Staged", "Staged.cfg", workers=2, timeout=600,
